@@ -19,7 +19,7 @@ from hgsim.util import canon, digest, mix
 
 ID = "C09"
 LEVEL = "fault_enumeration"
-BUDGET = {"quick": (8, 60, 45), "thorough": (16, 3000, 600)}
+BUDGET = {"quick": (8, 150, 90), "thorough": (16, 3000, 600)}
 RULE = (
     "two seeded workloads. (mem) general programs with a random subset of function nodes and gates cacheable, plus deliberately shared functions "
     "(two nodes from one function object with different output names; two if/else gates from one function with different targets); a history of "
